@@ -27,14 +27,28 @@ struct View { base_rowid: i64, n0: i64, t0: i64, ops: Vec<String>, obs: Vec<i64>
 #[derive(Clone, Copy, Debug, PartialEq)]
 enum Ent { Doc, Note, Memo }
 impl Ent {
+    fn short(&self) -> &'static str { match self { Ent::Doc => "Doc", Ent::Note => "Note", Ent::Memo => "Memo" } }
     fn name(&self) -> &'static str { match self { Ent::Doc => "ns.Doc", Ent::Note => "ns.Note", Ent::Memo => "ns.Memo" } }
     fn a_nullable(&self) -> bool { !matches!(self, Ent::Doc) }
     fn has_b(&self) -> bool { !matches!(self, Ent::Memo) }
 }
 
+/// the instance caches parsed mutations by their text and does not drop the cache when the data model
+/// changes: every history, and every model version inside it, uses its own alias so that its mutations
+/// are parsed under the model version in force
+static EPOCH: std::sync::atomic::AtomicU64 = std::sync::atomic::AtomicU64::new(0);
+fn next_epoch() -> u64 { EPOCH.fetch_add(1, std::sync::atomic::Ordering::SeqCst) + 1 }
+
 struct Hist<'a> {
     net: &'a Net,
+    epoch: u64,
     ent: Ent,
+    /// a second room with the same rights (local histories move rows there and back)
+    room2: Uid,
+    in_room2: std::collections::HashSet<u64>,
+    /// the entity is currently declared with no_full_text_index (a later model version)
+    declared_off: bool,
+    ref_seq: u64,
     tokens: Vec<String>,
     room: Uid,
     n: usize,
@@ -48,6 +62,7 @@ struct Hist<'a> {
 impl<'a> Hist<'a> {
     async fn new(net: &'a Net, n: usize, ent: Ent, seen_max: &'a mut Vec<i64>) -> Hist<'a> {
         let room = net.create_room(T0 - 30 * DAY, &["ns.Doc", "ns.Plain", "ns.Note", "ns.Memo"]).await;
+        let room2 = net.create_room(T0 - 30 * DAY, &["ns.Doc", "ns.Plain", "ns.Note", "ns.Memo"]).await;
         let mut views = vec![];
         for p in 0..n {
             // fence: no new row of this history may take a storage slot used in an earlier history
@@ -59,14 +74,16 @@ impl<'a> Hist<'a> {
             let (n0, t0) = net.fts_totals(p).await;
             views.push(View { base_rowid, n0, t0, ops: vec![], obs: vec![], checks: 0, mism: 0, errs: 0, synced: 0 });
         }
-        Hist { net, ent, tokens: vec![], room, n, ids: vec![], views, words: BTreeSet::new(), t: T0 + 1000, seen_max }
+        Hist { net, epoch: next_epoch(), ent, room2, in_room2: Default::default(), declared_off: false, ref_seq: 0, tokens: vec![], room, n, ids: vec![], views, words: BTreeSet::new(), t: T0 + 1000, seen_max }
     }
     fn index_of(&self, id: &Uid) -> Option<u64> { self.ids.iter().position(|u| u == id).map(|i| i as u64 + 1) }
 
     async fn rows(&mut self, p: usize) -> Vec<Row> {
         let base = self.views[p].base_rowid;
         let mut out = vec![];
-        for r in self.net.dump_nodes(p, self.room).await {
+        let mut both = self.net.dump_nodes(p, self.room).await;
+        both.extend(self.net.dump_nodes(p, self.room2).await);
+        for r in both {
             if r.rowid > self.seen_max[p] { self.seen_max[p] = r.rowid; }
             let v: serde_json::Value = serde_json::from_str(r.json.as_deref().unwrap_or("{}")).unwrap();
             let o = v.as_object().unwrap();
@@ -108,6 +125,7 @@ impl<'a> Hist<'a> {
         let all: Vec<String> = self.words.iter().cloned().collect();
         for _ in 0..6 { if !all.is_empty() { let w = rng.pick(&all).clone(); if !ws.contains(&w) { ws.push(w); } } }
         ws.push("ab".to_string());
+        if self.declared_off { ws.clear(); } // the property speaks for entities with indexing enabled
         let mut block: Vec<i64> = vec![rows.len() as i64];
         for r in &rows {
             block.push(r.id as i64); block.push(r.rowid);
@@ -146,7 +164,7 @@ impl<'a> Hist<'a> {
         let mut fields = String::new();
         if let Some(t) = a { pa.add("a", t.to_string()).unwrap(); fields.push_str(" a:$a"); }
         if let Some(t) = b { pa.add("b", t.to_string()).unwrap(); fields.push_str(" b:$b"); }
-        let q = format!("mutate {{ {}{{ room_id:$room_id{} }} }}", self.ent.name(), fields);
+        let q = format!("mutate {{ v{}: {}{{ room_id:$room_id{} }} }}", self.epoch, self.ent.name(), fields);
         let r = self.net.peers[p].db.mutate_raw(&q, Some(pa)).await.expect("create");
         self.ids.push(r.mutate_entities[0].node_to_mutate.id);
         let x = self.ids.len() as u64;
@@ -169,7 +187,7 @@ impl<'a> Hist<'a> {
         let mut fields = String::new();
         match a { Some(Some(t)) => { pa.add("a", t.to_string()).unwrap(); fields.push_str(" a:$a"); self.note_text(t, rng); } Some(None) => fields.push_str(" a:null"), None => {} }
         match b { Some(Some(t)) => { pa.add("b", t.to_string()).unwrap(); fields.push_str(" b:$b"); self.note_text(t, rng); } Some(None) => fields.push_str(" b:null"), None => {} }
-        let q = format!("mutate {{ {}{{ id:$id{} }} }}", self.ent.name(), fields);
+        let q = format!("mutate {{ v{}: {}{{ id:$id{} }} }}", self.epoch, self.ent.name(), fields);
         let flag = match self.net.peers[p].db.mutate_raw(&q, Some(pa)).await {
             Ok(_) => 1,
             Err(DbError::DatabaseWrite(_)) => 2,
@@ -183,6 +201,53 @@ impl<'a> Hist<'a> {
         v.obs.push(flag);
         self.check(p, rng).await;
         flag
+    }
+
+    /// an update that leaves every text field as it is: a number field, a new reference, or a move of the
+    /// row to the other room (kind 0 / 1 / 2; what the entity does not have falls back to the room move)
+    async fn touch(&mut self, p: usize, x: u64, kind: u64, rng: &mut Rng) -> i64 {
+        self.t += 1000;
+        verif_clock::set(self.t);
+        let mut pa = Parameters::default();
+        pa.add("id", b64(&self.ids[x as usize - 1])).unwrap();
+        let q = match (kind, self.ent) {
+            (0, Ent::Note) | (0, Ent::Memo) => { self.ref_seq += 1; pa.add("n", self.ref_seq as i64).unwrap(); format!("mutate {{ v{}: {}{{ id:$id n:$n }} }}", self.epoch, self.ent.name()) }
+            (1, Ent::Doc) if self.ids.len() > 1 => {
+                // a reference to a fresh target row (created for the purpose, without text it would still be indexed: give it none of the probed tokens)
+                let y = self.create(p, Some("zzz9"), None, rng).await;
+                self.t += 1000;
+                verif_clock::set(self.t);
+                pa.add("y", b64(&self.ids[y as usize - 1])).unwrap();
+                format!("mutate {{ v{}: ns.Doc{{ id:$id refs:[{{id:$y}}] }} }}", self.epoch)
+            }
+            _ => {
+                let to2 = !self.in_room2.contains(&x);
+                pa.add("room", b64(if to2 { &self.room2 } else { &self.room })).unwrap();
+                if to2 { self.in_room2.insert(x); } else { self.in_room2.remove(&x); }
+                format!("mutate {{ v{}: {}{{ id:$id room_id:$room }} }}", self.epoch, self.ent.name())
+            }
+        };
+        let flag = match self.net.peers[p].db.mutate_raw(&q, Some(pa)).await {
+            Ok(r) => if r.mutate_entities[0].node_to_mutate.node.is_some() { 1 } else { 3 },
+            Err(DbError::DatabaseWrite(_)) => 2,
+            Err(_) => 0,
+        };
+        self.net.barrier(p).await;
+        let v = &mut self.views[p];
+        v.ops.push(format!("FUpdate {} None None", gn(x)));
+        v.obs.push(flag);
+        self.check(p, rng).await;
+        flag
+    }
+
+    /// a new version of the data model: the entity of the history with / without no_full_text_index
+    async fn toggle(&mut self, p: usize, indexed: bool, rng: &mut Rng) {
+        let text = if indexed { MODEL.to_string() } else { model_with_index_off(self.ent.short()) };
+        self.net.peers[p].db.update_data_model(&text).await.expect("data model update");
+        self.declared_off = !indexed;
+        self.epoch = next_epoch();
+        self.views[p].ops.push(format!("FToggle {}", gb(indexed)));
+        self.check(p, rng).await;
     }
 
     async fn delete(&mut self, p: usize, x: u64, rng: &mut Rng) {
@@ -341,6 +406,44 @@ async fn null_all(net: &Net, rng: &mut Rng, seen: &mut Vec<i64>) -> Vec<Case> {
     out
 }
 
+/// updates that leave the text alone: a room-only move (there and back), a number field, a reference;
+/// the row must stay findable by its text after each of them
+async fn text_untouched(net: &Net, rng: &mut Rng, seen: &mut Vec<i64>) -> Vec<Case> {
+    let mut out = vec![];
+    for ent in [Ent::Note, Ent::Doc, Ent::Memo] {
+        let mut h = Hist::new(net, 1, ent, seen).await;
+        let x = h.create(0, Some("abcab 1ca1"), if ent.has_b() { Some("ccb1c") } else { None }, rng).await;
+        let y = h.create(0, Some("bbca1"), None, rng).await;
+        h.touch(0, x, 2, rng).await;      // to the other room
+        h.touch(0, y, 0, rng).await;      // number field (Note, Memo) / room move (Doc)
+        h.touch(0, x, 1, rng).await;      // new reference (Doc) / room move back
+        h.touch(0, x, 2, rng).await;
+        h.update(0, x, Some(Some("1c1ca")), None, rng).await;
+        h.touch(0, x, 2, rng).await;
+        out.extend(h.cases("text_untouched", json!({"entity": ent.name()})));
+    }
+    out
+}
+/// three versions of the data model for one entity: indexed, no_full_text_index, indexed again; rows
+/// are updated and created while the index is declared off
+async fn toggle_index(net: &Net, rng: &mut Rng, seen: &mut Vec<i64>) -> Vec<Case> {
+    let mut out = vec![];
+    for ent in [Ent::Memo, Ent::Note] {
+        let mut h = Hist::new(net, 1, ent, seen).await;
+        let x = h.create(0, Some("abcab 1ca1"), None, rng).await;
+        let y = h.create(0, Some("ccb1c"), None, rng).await;
+        h.toggle(0, false, rng).await;
+        h.update(0, x, Some(Some("bc1bc a1a1")), None, rng).await;
+        let z = h.create(0, Some("1b1b1"), None, rng).await;
+        h.touch(0, y, 0, rng).await;
+        h.toggle(0, true, rng).await;
+        h.update(0, z, Some(Some("cabca")), None, rng).await;
+        h.update(0, x, Some(None), None, rng).await;
+        out.extend(h.cases("toggle_index", json!({"entity": ent.name()})));
+    }
+    out
+}
+
 fn pick_ent(rng: &mut Rng) -> Ent { match rng.below(5) { 0..=1 => Ent::Doc, 2..=3 => Ent::Note, _ => Ent::Memo } }
 
 /// a generated local step on peer p; returns the id of a created row
@@ -375,12 +478,32 @@ async fn local(net: &Net, rng: &mut Rng, seen: &mut Vec<i64>) -> Vec<Case> {
     for _ in 0..(6 + rng.below(8)) {
         match rng.below(10) {
             0..=2 => { let x = gen_create(&mut h, 0, rng).await; live.push(x); }
-            3..=8 if !live.is_empty() => { let x = *rng.pick(&live); gen_update(&mut h, 0, x, rng).await; }
+            3..=6 if !live.is_empty() => { let x = *rng.pick(&live); gen_update(&mut h, 0, x, rng).await; }
+            7..=8 if !live.is_empty() => { let x = *rng.pick(&live); let k = rng.below(3); h.touch(0, x, k, rng).await; live = h.rows(0).await.iter().map(|r| r.id).collect(); }
             _ if live.len() > 1 => { let i = rng.below(live.len() as u64 - 1) as usize; let x = live.remove(i); h.delete(0, x, rng).await; } // never the newest row
             _ => {}
         }
     }
     h.cases("local", json!({"entity": ent.name()}))
+}
+/// generated local histories around model versions toggling the index of the entity
+async fn local_toggle(net: &Net, rng: &mut Rng, seen: &mut Vec<i64>) -> Vec<Case> {
+    let ent = if rng.chance(1, 2) { Ent::Note } else { Ent::Memo };
+    let mut h = Hist::new(net, 1, ent, seen).await;
+    let mut live: Vec<u64> = vec![];
+    let mut indexed = true;
+    for step in 0..(8 + rng.below(6)) {
+        match rng.below(10) {
+            0..=2 => { let x = gen_create(&mut h, 0, rng).await; live.push(x); }
+            3..=6 if !live.is_empty() => { let x = *rng.pick(&live); gen_update(&mut h, 0, x, rng).await; }
+            7 if !live.is_empty() => { let x = *rng.pick(&live); h.touch(0, x, rng.below(3), rng).await; }
+            _ if step > 1 => { indexed = !indexed; h.toggle(0, indexed, rng).await; }
+            _ => {}
+        }
+    }
+    if !indexed { h.toggle(0, true, rng).await; }
+    if !live.is_empty() { let x = *rng.pick(&live); gen_update(&mut h, 0, x, rng).await; }
+    h.cases("local_toggle", json!({"entity": ent.name()}))
 }
 async fn random(net: &Net, rng: &mut Rng, seen: &mut Vec<i64>) -> Vec<Case> {
     let n = 1 + rng.below(3) as usize;
@@ -413,6 +536,9 @@ async fn main() {
     for c in k2(&net, &mut rng.fork(), &mut seen).await { out.push(c); }
     for c in k3(&net, &mut rng.fork(), &mut seen).await { out.push(c); }
     for c in null_all(&net, &mut rng.fork(), &mut seen).await { out.push(c); }
+    for c in text_untouched(&net, &mut rng.fork(), &mut seen).await { out.push(c); }
+    for c in toggle_index(&net, &mut rng.fork(), &mut seen).await { out.push(c); }
+    for _ in 0..scale(6, 100) { for c in local_toggle(&net, &mut rng.fork(), &mut seen).await { out.push(c); } }
     for _ in 0..scale(12, 200) { for c in local(&net, &mut rng.fork(), &mut seen).await { out.push(c); } }
     for _ in 0..scale(24, 400) { for c in random(&net, &mut rng.fork(), &mut seen).await { out.push(c); } }
     out.finish();
